@@ -369,7 +369,8 @@ func Run(ctx *vl.Ctx) {
 			ctx.Sample(map[string]string{"id": items[i].id, "program": fl.Render(items[i].p), "falls_off": fmt.Sprint(items[i].mustRej)})
 		}
 	}
-	ctx.Count("programs_compiled", r.Programs)
+	r.Report()
+	r.Close()
 	ctx.Count("bodies_executed", int64(len(runnable)))
 	ctx.Assume = append(ctx.Assume, "falls-off is syntactic: every non-constant condition may go either way, a loop may run zero times, `while true` is left only by break/return, a match without `_` may match nothing",
 		"over-rejection (all paths return, yet rejected) is counted, not judged")
